@@ -1,13 +1,14 @@
-_TEXT = ("full-strength C05, proved: for every schema of flat REQUIRED / OPTIONAL columns (at least one; FIXED_LEN_BYTE_ARRAY with a "
+_TEXT = ("full-strength C05, proved: for every schema of flat REQUIRED / OPTIONAL / REPEATED columns (at least one; FIXED_LEN_BYTE_ARRAY with a "
          "positive length), codec UNCOMPRESSED / SNAPPY / LZ4 / LZ4_RAW, page size and write history that respects the documented "
-         "preconditions of carquet_writer_write_batch (arrays as long as the counts say, definition levels 0/1, values of the "
-         "column's type, every column of a row group the same number of rows) and whose written file fits the C integer types "
+         "preconditions of carquet_writer_write_batch (arrays as long as the counts say, definition and repetition levels 0/1, values of the "
+         "column's type, every column of a row group the same number of rows - the rows of a REPEATED column are its entries with "
+         "repetition level 0 - and starting with repetition level 0) and whose written file fits the C integer types "
          "(file below 2 GiB, at most 32768 row groups, every chunk below 2^31 values and 2^31 uncompressed bytes): if every call and the close returned OK, then the independent "
          "whole-file reader Spec.File.read (written from the format documents, no Impl import) with strict tiling ACCEPTS the file "
          "of the byte-exact writer model and returns EXACTLY the table the history denotes (C05_spec_reader_accepts_writer: "
          "Spec.File.read (fileOf ...).1 = ok (specTableOf cols ops)). The proof composes, stage by stage as the reader proceeds, "
          "the writer theorems (C05_written_table + further invariants: page-builder well-formedness, chunk metadata fields, "
-         "row-group num_rows = rows of column 0) with the component theorems: envelope; footer = canonical compact Thrift of the "
+         "row-group num_rows = rows of column 0 - entries with repetition level 0 when that column is REPEATED, after fix F64) with the component theorems: envelope; footer = canonical compact Thrift of the "
          "parquet.thrift value (C13) -> generic decoder -> required-field extraction; schema tree; chunk ranges tile [4, footer) "
          "exactly; page header (C13); CRC-32 = bit-serial IEEE (C14); SNAPPY / LZ4 bodies decoded by the Spec decoders (C10); RLE "
          "levels and PLAIN values of all eight types decoded by the Spec decoders (C12); the page writer's running min / max and null "
@@ -30,9 +31,9 @@ PART = {
                  "FileSizesOk: the written file is shorter than 2 GiB, has at most 32768 row groups, and every column chunk has fewer "
                  "than 2^31 values and 2^31 uncompressed bytes (model arithmetic is unbounded Nat, the C code keeps these in "
                  "int32_t / int16_t fields)",
-                 "flat REQUIRED / OPTIONAL columns only: a REPEATED column is written without definition levels "
-                 "(file_writer.c add_column_internal gives it max_def_level 0) and the file is rejected by Spec.File.read "
-                 "(levelsDecode) although every call returned OK - witness in notes/NOTES_c05full.md"],
+                 "flat columns (what carquet_schema_add_column builds at the top level): REQUIRED, OPTIONAL and, since component rep2, "
+                 "REPEATED (fixes F60: max_def_level, F64: num_rows of a row group whose first column is REPEATED); nested "
+                 "schemas are not written by carquet's writer (add_column_internal takes the leaves as flat columns)"],
     text=_TEXT,
   ),
 }
